@@ -10,6 +10,7 @@ import xml.etree.ElementTree as ET
 
 from common import Check, c_build, c_driver, CBUILD, ROOT, run
 import girgen
+from typelibcheck import decode_and_compare
 
 CORE = '{http://www.gtk.org/introspection/core/1.0}'
 GLIB = '{http://www.gtk.org/introspection/glib/1.0}'
@@ -198,6 +199,7 @@ def main(tier, seed):
     rng = random.Random(seed)
     nns = 40 if tier == 'quick' else 600
     tmp = tempfile.mkdtemp(prefix='giv09')
+    jobs, jgirs = [], []
     try:
         for i in range(nns):
             g = girgen.Gen(rng)
@@ -211,6 +213,10 @@ def main(tier, seed):
                 continue
             p = subprocess.run([exe, tmp, 'T'], capture_output=True, text=True, timeout=120)
             got = sort_attrs([norm_line(l) for l in p.stdout.splitlines() if not l.startswith(('NS ', 'DEP '))])
+            if p.returncode == 0 and len(jobs) < (12 if tier == 'quick' else 200):
+                jobs.append(('C09_case_%d' % i, open(os.path.join(tmp, 'T-1.0.typelib'), 'rb').read(),
+                             [l for l in p.stdout.splitlines() if not l.startswith('DEP ')]))
+                jgirs.append(open(gir).read())
             exp = sort_attrs(girgen.expected_dump(ns))
             ck.count_case(dict(entries=[(e['kind'], e['name']) for e in ns['entries']], api_lines=len(got)),
                           nontrivial=len(got) > 20, kind='ns:%d' % len(ns['entries']))
@@ -244,6 +250,19 @@ def main(tier, seed):
                                  detail=dict(line=d[0], expected=d[1], generated=d[2]), fid=fid)
     finally:
         shutil.rmtree(tmp, ignore_errors=True)
+    # the API against an independent reading of the bytes: the Coq decoder of Model/C06.v
+    if ck.models_ok and jobs:
+        ok_m, out_m = __import__('common').coq_make(['Model/C06.vo'])
+        if not ok_m:
+            ck.tie_broken('model', 'decoder does not build:\n' + out_m[-1500:])
+        else:
+            for (name, data, api), r, xml in zip(jobs, decode_and_compare(jobs), jgirs):
+                if 'error' in r:
+                    ck.tie_broken('correspondence', 'decoder case does not evaluate:\n' + r['error'])
+                elif r['diff']:
+                    ck.failing_input('the API reports something else than the bytes of the typelib say (decoded per the '
+                                     'published format)', dict(gir=xml), detail=r['diff'])
+            ck.extra['typelibs_decoded_independently'] = len(jobs)
     ck.extra['traces_validated_against_impl'] = ck.evaluations
     return ck.finish(rule='seeded namespaces of 4-20 entries over all container kinds (records, unions, enumerations with '
                           'functions, classes with odd/even interface counts, embedded callback fields, properties, methods, '
